@@ -888,6 +888,17 @@ func raceSc_intervalTimer(r *rand.Rand, rounds int) {
 		obs := ro.Pipe1(ro.Interval(50*time.Microsecond), ro.Take[int64](int64(2+r.Intn(4))))
 		sub := obs.Subscribe(raceSinkOf[int64]())
 		sub2 := ro.Timer(100 * time.Microsecond).Subscribe(raceSinkOf[time.Duration]())
+		// IntervalWithInitial with a zero and a positive initial delay (the zero case emits its first value synchronously,
+		// on the subscribing goroutine, next to the ticker goroutine) and RangeWithInterval, with a slow first observer
+		first := true
+		sub3 := ro.Pipe1(ro.IntervalWithInitial(time.Duration(r.Intn(2))*30*time.Microsecond, 40*time.Microsecond), ro.Take[int64](4)).
+			Subscribe(ro.NewObserver(func(int64) {
+				if first {
+					first = false
+					time.Sleep(120 * time.Microsecond)
+				}
+			}, func(error) {}, func() {}))
+		raceWaitSub(sub3)
 		if r.Intn(2) == 0 {
 			racePause(raceSpin(r))
 			sub.Unsubscribe()
